@@ -29,6 +29,7 @@ import (
 	"io"
 	"math/rand"
 	"os"
+	"sort"
 	"strconv"
 	"strings"
 	"testing"
@@ -131,12 +132,16 @@ type c09Op struct {
 	ptext  string     // text on a SafePrinter when it differs (io side)
 	pieces []c09Piece // the payload(s) of the call and their side
 	valid  bool       // payload is valid UTF-8 / a valid rune: the equalities are claimed
-	ioSide bool       // goes through the plain io.Writer / fmt.State side
+	// pInvalid: on a SafePrinter the call has no exact counterpart and the stand-in has an invalid payload
+	// (StringBuilder.WriteByte(non-ASCII) is a single-byte unsafe write; on a fmt.State it is a one-byte Write)
+	pInvalid bool
+	ioSide   bool // goes through the plain io.Writer / fmt.State side
 	// unsafeOnly: the payload is as stated only when the write really is unsafe (a non-ASCII UnsafeByte is
 	// replaced by '?' in unsafe mode; under Safe() it is a safe single non-ASCII byte, an invalid payload)
 	unsafeOnly bool
 	run        func(t *c09Tgt)
 	mb         func(b *ManualBuffer) // the same write on a ManualBuffer (nil: derived from pieces)
+	raw        *string               // non-nil: on a ManualBuffer this is a raw-mode write of *raw
 	mbText     string
 }
 
@@ -346,7 +351,7 @@ func c09ByteOps(c byte, methods string) []*c09Op {
 		f, ft := mbb(c09U)
 		// StringBuilder.WriteByte is a single-byte unsafe write; a fmt.State has no WriteByte: a one-byte
 		// Write of a non-ASCII byte is an invalid UTF-8 payload (well-formedness only).
-		add("WriteByte", &c09Op{text: "WriteByte(" + q + ")", ptext: "Write([]byte{" + q + "})", pieces: c09One(false, up), valid: ascii, ioSide: true, mb: f, mbText: ft,
+		add("WriteByte", &c09Op{text: "WriteByte(" + q + ")", ptext: "Write([]byte{" + q + "})", pieces: c09One(false, up), valid: true, pInvalid: !ascii, ioSide: true, mb: f, mbText: ft,
 			run: func(t *c09Tgt) {
 				if t.sb != nil {
 					_ = t.sb.WriteByte(c)
@@ -400,6 +405,7 @@ func c09MiscOps() []*c09Op {
 		q := fmt.Sprintf("%q", r)
 		ops = append(ops, &c09Op{text: "Print(RedactableString(" + q + "))", pieces: c09PiecesOf(r), valid: true,
 			run:    func(t *c09Tgt) { t.sw.Print(RedactableString(r)) },
+			raw:    &r,
 			mb:     func(b *ManualBuffer) { b.SetMode(c09R); _, _ = b.WriteString(r) },
 			mbText: "b.SetMode(SafeRaw); b.WriteString(" + q + ")"})
 	}
@@ -408,8 +414,19 @@ func c09MiscOps() []*c09Op {
 		q := fmt.Sprintf("%q", r)
 		ops = append(ops, &c09Op{text: "Printf(\"%v\", RedactableBytes(" + q + "))", pieces: c09PiecesOf(r), valid: true,
 			run:    func(t *c09Tgt) { t.sw.Printf("%v", RedactableBytes(r)) },
+			raw:    &r,
 			mb:     func(b *ManualBuffer) { b.SetMode(c09R); _, _ = b.Write([]byte(r)) },
 			mbText: "b.SetMode(SafeRaw); b.Write([]byte(" + q + "))"})
+	}
+	// pre-redactable fragments without markers that end in a piece of a marker (well-formedness only)
+	for _, r := range []string{"\xe2\x80", vS + "\xe2\x80" + vE, "\xba"} {
+		r := r
+		q := fmt.Sprintf("%q", r)
+		ops = append(ops, &c09Op{text: "Print(RedactableString(" + q + "))", pieces: c09PiecesOf(r), valid: false,
+			run:    func(t *c09Tgt) { t.sw.Print(RedactableString(r)) },
+			raw:    &r,
+			mb:     func(b *ManualBuffer) { b.SetMode(c09R); _, _ = b.WriteString(r) },
+			mbText: "b.SetMode(SafeRaw); b.WriteString(" + q + ")"})
 	}
 	// nested: Print / Printf of a SafeFormatter that itself makes SafeWriter calls
 	inner1 := []*c09Op{c09StringOps("i", "SafeString,")[0], c09StringOps(vS+"\nj", "UnsafeString,")[0], c09RuneOps('›', "SafeRune,")[0]}
@@ -432,7 +449,10 @@ func c09MiscOps() []*c09Op {
 // payload alphabet: ordinary, space, line feed, the two markers, a multi-byte character, the empty payload,
 // and a few two/three character payloads
 var c09Strs = []string{"a", " ", "\n", vS, vE, "é", "", "x\ny", vS + "z" + vE}
-var c09BadStrs = []string{"\xe2\x80", "\xb9", "\xe2"}
+
+// invalid UTF-8 payloads (well-formedness and line-safety only): the pieces of a marker, a marker followed by
+// a partial marker, a stray lead byte before a line feed
+var c09BadStrs = []string{"\xe2\x80", "\xb9", "\xe2", "\xba", vE + "\xe2\x80", "\xe9", "\xe9\nb"}
 var c09Runes = []rune{'a', ' ', '\n', '‹', '›', 'é'}
 var c09BadRunes = []rune{-1, 0xD800}
 var c09Bytes = []byte{'a', ' ', '\n', 0xe2, 0x80, 0xb9, 0xba}
@@ -459,6 +479,47 @@ func c09FullCatalog(extra []string) []*c09Op {
 	return ops
 }
 
+// c09Pick: the calls whose text starts with one of the given prefixes (exactly one each).
+func c09Pick(ops []*c09Op, prefixes ...string) []*c09Op {
+	var out []*c09Op
+	for _, p := range prefixes {
+		n := 0
+		for _, o := range ops {
+			if strings.HasPrefix(o.text, p) {
+				out = append(out, o)
+				n++
+			}
+		}
+		if n != 1 {
+			panic(fmt.Sprintf("c09Pick: %q matches %d calls", p, n))
+		}
+	}
+	return out
+}
+
+// c09MidCatalog: every method with every single-character payload class and the empty payload, plus a
+// selection of invalid payloads, redactable fragments and a nested SafeFormatter.
+func c09MidCatalog() []*c09Op {
+	var ops []*c09Op
+	for _, s := range []string{"a", " ", "\n", vS, vE, "é", ""} {
+		ops = append(ops, c09StringOps(s, "")...)
+	}
+	ops = append(ops, c09StringOps("\xe2\x80", "SafeString,UnsafeString,Write,")...)
+	ops = append(ops, c09StringOps("\xb9", "SafeString,")...)
+	for _, r := range []rune{'\n', '‹', '›', 'é'} {
+		ops = append(ops, c09RuneOps(r, "")...)
+	}
+	ops = append(ops, c09RuneOps(-1, "UnsafeRune,")...)
+	for _, c := range []byte{'a', '\n', 0xe2} {
+		ops = append(ops, c09ByteOps(c, "")...)
+	}
+	misc := c09MiscOps()
+	ops = append(ops, c09Pick(misc, "SafeInt(-12)", "Print(1, 2)", "Print(RedactableString(\"‹a›\"))", "Print(RedactableString(\"b\"))",
+		"Print(RedactableString(\"c‹d›e\"))", "Print(RedactableString(\"‹›\"))", "Print(RedactableString(\"\\n\"))",
+		"Print(RedactableString(\"\\xe2\\x80\"))", "Print(SafeFormatter{p.SafeString(\"i\")")...)
+	return ops
+}
+
 // c09CoreCatalog: every method at least once, every payload class on both sides; small enough for the
 // deepest enumeration.
 func c09CoreCatalog() []*c09Op {
@@ -479,7 +540,7 @@ func c09CoreCatalog() []*c09Op {
 	ops = append(ops, c09ByteOps(0xe2, "SafeByte,UnsafeByte,")...)
 	ops = append(ops, c09ByteOps(0x80, "WriteByte,")...)
 	misc := c09MiscOps()
-	ops = append(ops, misc[0], misc[2], misc[5], misc[6]) // SafeInt, SafeFloat, Print(RedactableString("‹a›")), Print(RedactableString("b"))
+	ops = append(ops, c09Pick(misc, "SafeInt(-12)", "SafeFloat(1.5)", "Print(RedactableString(\"‹a›\"))", "Print(RedactableString(\"b\"))")...)
 	return ops
 }
 
@@ -497,6 +558,7 @@ type c09Checker struct {
 	nontrivial  int // see c09NontrivialRule
 	ioHistories int // claimed histories with a call on the io.Writer / fmt.State side
 	agreeCases  int // claimed histories compared across implementations
+	agreeNontr  int // ... of which non-trivial
 	wrapped     int // histories also run under Safe()
 	seen        map[string]bool
 }
@@ -521,14 +583,18 @@ func (c *c09Checker) check(seq []*c09Op, wrap bool) {
 		return
 	}
 	c.histories++
-	valid := true
+	valid, pvalid := true, true
 	for _, o := range seq {
 		if !o.valid {
 			valid = false
 		}
+		if !o.valid || o.pInvalid {
+			pvalid = false
+		}
 	}
 	// expected content and sides, from the statement
 	var expText, expFlags, expDel string
+	nontrivialHere := false
 	if valid {
 		var tb, fb, db strings.Builder
 		hasS, hasU, special, viaIO := false, false, false, false
@@ -567,6 +633,7 @@ func (c *c09Checker) check(seq []*c09Op, wrap bool) {
 			c.ioHistories++
 		}
 		if (hasS && hasU) || special {
+			nontrivialHere = true
 			if c.seen != nil {
 				k := c09SeqText(seq, false, "w")
 				if !c.seen[k] {
@@ -579,7 +646,7 @@ func (c *c09Checker) check(seq []*c09Op, wrap bool) {
 		}
 	}
 
-	verify := func(call func() string, out string, sidesClaimed bool, pre, post string) (nf string, ok bool) {
+	verify := func(call func() string, out string, valid bool, sidesClaimed bool, pre, post string) (nf string, ok bool) {
 		c.outputs++
 		if !vWellFormed(out) {
 			c.fail(call(), out, "the result is not well-formed (markers do not alternate / an envelope is left open)")
@@ -632,7 +699,7 @@ func (c *c09Checker) check(seq []*c09Op, wrap bool) {
 		}
 		out := string(b.RedactableString())
 		call := func() string { return "var b StringBuilder; " + c09SeqText(seq, false, "b") + "; b.RedactableString()" }
-		if nf, ok := verify(call, out, true, "", ""); ok {
+		if nf, ok := verify(call, out, valid, true, "", ""); ok {
 			rs = append(rs, res{"StringBuilder", call, nf, out})
 		}
 	}
@@ -645,7 +712,7 @@ func (c *c09Checker) check(seq []*c09Op, wrap bool) {
 			}
 		}))
 		call := func() string { return "Sprintfn(func(p SafePrinter) { " + c09SeqText(seq, true, "p") + " })" }
-		if nf, ok := verify(call, out, true, "", ""); ok {
+		if nf, ok := verify(call, out, pvalid, true, "", ""); ok && pvalid {
 			rs = append(rs, res{"Sprintfn", call, nf, out})
 		}
 	}
@@ -655,7 +722,7 @@ func (c *c09Checker) check(seq []*c09Op, wrap bool) {
 		call := func() string {
 			return "Sprint(f) where f.SafeFormat(p SafePrinter, _ rune) { " + c09SeqText(seq, true, "p") + " }"
 		}
-		if nf, ok := verify(call, out, true, "", ""); ok {
+		if nf, ok := verify(call, out, pvalid, true, "", ""); ok && pvalid {
 			rs = append(rs, res{"SafeFormat", call, nf, out})
 		}
 	}
@@ -664,31 +731,54 @@ func (c *c09Checker) check(seq []*c09Op, wrap bool) {
 		call := func() string {
 			return "Sprintf(\"[%v]\", f) where f.SafeFormat(p SafePrinter, _ rune) { " + c09SeqText(seq, true, "p") + " }"
 		}
-		if nf, ok := verify(call, out, true, "[", "]"); ok {
+		if nf, ok := verify(call, out, pvalid, true, "[", "]"); ok && pvalid {
 			rs = append(rs, res{"SafeFormat in Sprintf", call, nf, out})
 		}
 	}
-	// 4. ManualBuffer
-	{
+	// 4. ManualBuffer. Consecutive raw writes must add up to a well-formed fragment (the caller vouches for raw
+	// data; the StringBuilder and the printers finish each Print on its own): otherwise the history is outside
+	// the statement for a ManualBuffer.
+	mbOK := true
+	if !valid {
+		run := ""
+		for _, o := range seq {
+			if o.raw == nil {
+				run = ""
+				continue
+			}
+			run += *o.raw
+			if !vWellFormed(run) {
+				mbOK = false
+			}
+		}
+	}
+	if mbOK {
 		var b ManualBuffer
-		var parts []string
 		for _, o := range seq {
 			if o.mb != nil {
 				o.mb(&b)
-				parts = append(parts, o.mbText)
 				continue
 			}
 			for _, p := range o.pieces {
 				b.SetMode(c09Mode(p.safe))
 				_, _ = b.WriteString(p.text)
-				parts = append(parts, fmt.Sprintf("b.SetMode(%sEscaped); b.WriteString(%q)", c09SideName(p.safe), p.text))
 			}
 		}
 		out := string(b.RedactableString())
 		call := func() string {
+			var parts []string
+			for _, o := range seq {
+				if o.mb != nil {
+					parts = append(parts, o.mbText)
+					continue
+				}
+				for _, p := range o.pieces {
+					parts = append(parts, fmt.Sprintf("b.SetMode(%sEscaped); b.WriteString(%q)", c09SideName(p.safe), p.text))
+				}
+			}
 			return "var b ManualBuffer; " + strings.Join(parts, "; ") + "; b.RedactableString()"
 		}
-		if nf, ok := verify(call, out, true, "", ""); ok {
+		if nf, ok := verify(call, out, valid, true, "", ""); ok {
 			rs = append(rs, res{"ManualBuffer", call, nf, out})
 			if valid {
 				if s := b.String(); s != expText {
@@ -699,7 +789,12 @@ func (c *c09Checker) check(seq []*c09Op, wrap bool) {
 	}
 	// agreement up to merging of adjacent envelopes
 	if valid && len(rs) > 1 {
-		c.agreeCases++
+		if pvalid {
+			c.agreeCases++
+			if nontrivialHere {
+				c.agreeNontr++
+			}
+		}
 		for _, r := range rs[1:] {
 			if r.nf != rs[0].nf {
 				c.fail(r.call(), r.out, fmt.Sprintf("%s and %s disagree beyond merging of adjacent envelopes: StringBuilder gives %q", r.name, rs[0].name, rs[0].out))
@@ -715,12 +810,13 @@ func (c *c09Checker) check(seq []*c09Op, wrap bool) {
 		call := func() string {
 			return "Sprint(Safe(f)) where f.SafeFormat(p SafePrinter, _ rune) { " + c09SeqText(seq, true, "p") + " }"
 		}
+		wvalid := pvalid
 		for _, o := range seq {
 			if o.unsafeOnly {
-				valid = false // well-formedness and line-safety only
+				wvalid = false // well-formedness and line-safety only
 			}
 		}
-		verify(call, out, false, "", "")
+		verify(call, out, wvalid, false, "", "")
 	}
 }
 
@@ -787,13 +883,16 @@ type c09Step struct {
 	setMode int                   // 0..2: SetMode(mode); -1: a write
 	payload string                // written bytes
 	kind    byte                  // 's' WriteString, 'w' Write, 'b' WriteByte, 'r' WriteRune
-	rawOK   bool                  // a well-formed, line-safe, valid UTF-8 fragment (allowed in SafeRaw mode)
-	validS  bool                  // a valid payload in SafeEscaped mode
+	rawOK   bool                  // a well-formed, line-safe fragment (allowed in SafeRaw mode)
+	validS  bool                  // a valid UTF-8 payload when written in SafeEscaped or SafeRaw mode
+	validU  bool                  // a valid payload when written in UnsafeEscaped mode
 	do      func(b *ManualBuffer) //
 	unsafeP string                // payload when written in UnsafeEscaped mode
 }
 
-func c09Steps() []*c09Step {
+// c09Steps: the step alphabet; extended adds a raw/escaped write that ends in two thirds of a marker and the
+// byte that would complete it (well-formedness only).
+func c09Steps(extended bool) []*c09Step {
 	var st []*c09Step
 	for _, m := range []cib.OutputMode{c09U, c09S, c09R} {
 		m := m
@@ -802,34 +901,41 @@ func c09Steps() []*c09Step {
 	for _, s := range []string{"a", "\n", vS, vE, "é", vS + "b" + vE, ""} {
 		s := s
 		raw := vWellFormed(s) && vLineSafe(s)
-		st = append(st, &c09Step{text: fmt.Sprintf("WriteString(%q)", s), setMode: -1, payload: s, kind: 's', rawOK: raw, validS: true, unsafeP: s,
+		st = append(st, &c09Step{text: fmt.Sprintf("WriteString(%q)", s), setMode: -1, payload: s, kind: 's', rawOK: raw, validS: true, validU: true, unsafeP: s,
 			do: func(b *ManualBuffer) { _, _ = b.WriteString(s) }})
 	}
-	st = append(st, &c09Step{text: "Write([]byte(\" \\n\"))", setMode: -1, payload: " \n", kind: 'w', rawOK: true, validS: true, unsafeP: " \n",
+	st = append(st, &c09Step{text: "Write([]byte(\" \\n\"))", setMode: -1, payload: " \n", kind: 'w', rawOK: true, validS: true, validU: true, unsafeP: " \n",
 		do: func(b *ManualBuffer) { _, _ = b.Write([]byte(" \n")) }})
-	for _, ch := range []byte{'a', '\n', 0xe2} {
+	bytes := []byte{'a', '\n', 0xe2}
+	if extended {
+		bytes = append(bytes, 0xb9)
+		s := "\xe2\x80"
+		st = append(st, &c09Step{text: fmt.Sprintf("WriteString(%q)", s), setMode: -1, payload: s, kind: 's', rawOK: true, validS: false, validU: false, unsafeP: s,
+			do: func(b *ManualBuffer) { _, _ = b.WriteString(s) }})
+	}
+	for _, ch := range bytes {
 		ch := ch
 		up := string([]byte{ch})
 		if ch >= utf8.RuneSelf {
 			up = "?"
 		}
-		st = append(st, &c09Step{text: fmt.Sprintf("WriteByte(0x%02x)", ch), setMode: -1, payload: string([]byte{ch}), kind: 'b', rawOK: ch < utf8.RuneSelf, validS: ch < utf8.RuneSelf, unsafeP: up,
+		st = append(st, &c09Step{text: fmt.Sprintf("WriteByte(0x%02x)", ch), setMode: -1, payload: string([]byte{ch}), kind: 'b', rawOK: true, validS: ch < utf8.RuneSelf, validU: true, unsafeP: up,
 			do: func(b *ManualBuffer) { _ = b.WriteByte(ch) }})
 	}
 	for _, r := range []rune{'‹', '\n', ' '} {
 		r := r
-		st = append(st, &c09Step{text: fmt.Sprintf("WriteRune(%q)", r), setMode: -1, payload: string(r), kind: 'r', rawOK: r != '‹', validS: true, unsafeP: string(r),
+		st = append(st, &c09Step{text: fmt.Sprintf("WriteRune(%q)", r), setMode: -1, payload: string(r), kind: 'r', rawOK: r != '‹', validS: true, validU: true, unsafeP: string(r),
 			do: func(b *ManualBuffer) { _ = b.WriteRune(r) }})
 	}
 	return st
 }
 
-// c09StepHistories enumerates every step sequence of length <= n (raw-mode writes restricted to well-formed
+// c09StepHistories enumerates every step sequence of length minLen..n (raw-mode writes restricted to well-formed
 // fragments, as the statement says) and checks the ManualBuffer result.
-func c09StepHistories(c *c09Checker, n int) (count, claimed, nontrivial int, complete bool) {
-	steps := c09Steps()
+func c09StepHistories(c *c09Checker, n int, extended bool, minLen int) (count, claimed, nontrivial int, complete bool) {
+	steps := c09Steps(extended)
 	seq := make([]*c09Step, 0, n)
-	var rec func(left int, mode int) bool
+	var rec func(left int, mode int, rawRun string) bool
 	check := func() {
 		count++
 		var b ManualBuffer
@@ -847,6 +953,9 @@ func c09StepHistories(c *c09Checker, n int) (count, claimed, nontrivial int, com
 			switch cib.OutputMode(mode) {
 			case c09U:
 				ps = c09One(false, s.unsafeP)
+				if !s.validU {
+					valid = false
+				}
 			case c09S:
 				ps = c09One(true, s.payload)
 				if !s.validS {
@@ -854,6 +963,9 @@ func c09StepHistories(c *c09Checker, n int) (count, claimed, nontrivial int, com
 				}
 			default:
 				ps = c09PiecesOf(s.payload)
+				if !s.validS {
+					valid = false
+				}
 			}
 			for _, p := range ps {
 				if strings.Contains(p.text, vS) || strings.Contains(p.text, vE) || strings.Contains(p.text, "\n") {
@@ -915,8 +1027,10 @@ func c09StepHistories(c *c09Checker, n int) (count, claimed, nontrivial int, com
 			c.fail(call(), again, "RedactableString()/RedactableBytes()/Len() of the same buffer disagree")
 		}
 	}
-	rec = func(left int, mode int) bool {
-		check()
+	rec = func(left int, mode int, rawRun string) bool {
+		if len(seq) >= minLen {
+			check()
+		}
 		if c.done() {
 			return false
 		}
@@ -924,14 +1038,22 @@ func c09StepHistories(c *c09Checker, n int) (count, claimed, nontrivial int, com
 			return true
 		}
 		for _, s := range steps {
-			nm := mode
+			nm, nrun := mode, rawRun
 			if s.setMode >= 0 {
 				nm = s.setMode
-			} else if cib.OutputMode(mode) == c09R && !s.rawOK {
-				continue // not a well-formed fragment: outside the statement
+				if cib.OutputMode(nm) != c09R {
+					nrun = ""
+				}
+			} else if cib.OutputMode(mode) == c09R {
+				// consecutive raw writes must add up to a well-formed, line-safe fragment (the caller vouches for
+				// raw data); anything else is outside the statement
+				nrun = rawRun + s.payload
+				if !s.rawOK || !vWellFormed(nrun) || !vLineSafe(nrun) {
+					continue
+				}
 			}
 			seq = append(seq, s)
-			ok := rec(left-1, nm)
+			ok := rec(left-1, nm, nrun)
 			seq = seq[:len(seq)-1]
 			if !ok {
 				return false
@@ -939,7 +1061,7 @@ func c09StepHistories(c *c09Checker, n int) (count, claimed, nontrivial int, com
 		}
 		return true
 	}
-	complete = rec(n, int(c09U))
+	complete = rec(n, int(c09U), "")
 	return
 }
 
@@ -948,8 +1070,13 @@ func c09StepHistories(c *c09Checker, n int) (count, claimed, nontrivial int, com
 func c09Hints() (strs []string) {
 	var hints map[string]interface{}
 	_ = json.Unmarshal([]byte(os.Getenv("REPLAY_HINTS")), &hints)
-	for _, v := range hints {
-		s, ok := v.(string)
+	keys := make([]string, 0, len(hints))
+	for k := range hints {
+		keys = append(keys, k)
+	}
+	sort.Strings(keys)
+	for _, k := range keys {
+		s, ok := hints[k].(string)
 		if !ok {
 			continue
 		}
@@ -1006,7 +1133,21 @@ func TestVerifReplayC09(t *testing.T) {
 	if _, ok := c09EnumerateExact(c, c09CoreCatalog(), 3, 7); !ok {
 		return
 	}
-	c09StepHistories(c, 4)
+	if _, _, _, ok := c09StepHistories(c, 4, true, 0); !ok {
+		return
+	}
+	// a few long histories (fixed seed)
+	rnd := rand.New(rand.NewSource(9))
+	for k := 0; k < 3000 && !c.done(); k++ {
+		seq := make([]*c09Op, 4+rnd.Intn(30))
+		for j := range seq {
+			seq[j] = full[rnd.Intn(len(full))]
+			if k%3 != 0 && (!seq[j].valid || seq[j].pInvalid) {
+				seq[j] = full[0]
+			}
+		}
+		c.check(seq, k%4 == 0)
+	}
 	t.Logf("C09 replay: %d histories, %d results, %d under Safe(), %d failures", c.histories, c.outputs, c.wrapped, c.fails)
 }
 
@@ -1019,43 +1160,67 @@ func TestVerifBoundedC09(t *testing.T) {
 	start := time.Now()
 	c := &c09Checker{t: t, limit: 8, seen: nil}
 	full := c09FullCatalog(nil)
+	mid := c09MidCatalog()
 	core := c09CoreCatalog()
-	fullLen, coreLen, stepLen, nRandom := 2, 3, 5, 3000
+	// quick: full catalog up to 2 calls, core catalog 3 calls; thorough: also mid catalog 3 calls, core catalog 4 calls
+	midLen, coreLen, stepLen, nRandom := 0, 3, 5, 30000
 	if thorough {
-		fullLen, coreLen, stepLen, nRandom = 3, 4, 6, 60000
+		midLen, coreLen, stepLen, nRandom = 3, 4, 6, 60000
+	}
+	var phases []string
+	lap := time.Now()
+	mark := func(name string, n int) {
+		phases = append(phases, fmt.Sprintf("%s: %d in %.1fs", name, n, time.Since(lap).Seconds()))
+		lap = time.Now()
 	}
 
-	complete := true
-	// A. every history of at most fullLen calls over the full catalog
-	nFull, ok := c09Enumerate(c, full, fullLen, 1+len(full)/8)
-	complete = complete && ok
-	// B. every history of fullLen+1..coreLen calls over the core catalog
-	nCore := 0
-	if complete {
-		for l := fullLen + 1; l <= coreLen && complete; l++ {
-			n, ok := c09EnumerateExact(c, core, l, 11)
-			nCore += n
-			complete = complete && ok
-		}
+	// A. every history of at most 2 calls over the full catalog
+	nFull, complete := c09Enumerate(c, full, 2, 1+len(full)/8)
+	mark("full<=2", nFull)
+	// B. every history of exactly 3 calls over the mid catalog (thorough)
+	nMid := 0
+	if complete && midLen == 3 {
+		nMid, complete = c09EnumerateExact(c, mid, 3, 13)
+		mark("mid=3", nMid)
 	}
-	enumHist, enumClaimed, enumNontrivial, enumIO, enumAgree, enumOutputs := c.histories, c.claimed, c.nontrivial, c.ioHistories, c.agreeCases, c.outputs
-	bound := fmt.Sprintf("all call sequences of at most %d calls over the full catalog (%d calls: every method x payloads {ordinary, space, LF, start, end, 2-byte char, empty, \"x\\ny\", \"‹z›\"} plus invalid bytes/runes, Print of redactable fragments, nested SafeFormatters) and of at most %d calls over the core catalog (%d calls: every method, every payload class on both sides); each on StringBuilder, Sprintfn, SafeFormat via Sprint and via Sprintf, ManualBuffer",
-		fullLen, len(full), coreLen, len(core))
+	// C. every history of 3..coreLen calls over the core catalog
+	nCore := 0
+	for l := 3; l <= coreLen && complete; l++ {
+		if l == midLen {
+			continue // the core calls are mid calls: already covered
+		}
+		var n int
+		n, complete = c09EnumerateExact(c, core, l, 11)
+		nCore += n
+		mark(fmt.Sprintf("core=%d", l), n)
+	}
+	enumHist, enumClaimed, enumNontrivial, enumIO, enumAgree, enumAgreeNontr, enumOutputs := c.histories, c.claimed, c.nontrivial, c.ioHistories, c.agreeCases, c.agreeNontr, c.outputs
+	bound := fmt.Sprintf("all call sequences of at most 2 calls over the full catalog (%d calls: every method x payloads {ordinary, space, LF, start, end, 2-byte char, empty, \"x\\ny\", \"‹z›\"}, invalid bytes/runes, Print/Printf of redactable fragments, of several operands and of nested SafeFormatters)", len(full))
+	if midLen == 3 {
+		bound += fmt.Sprintf(", of exactly 3 calls over the mid catalog (%d calls: every method x the seven single-character/empty payloads, a selection of the rest)", len(mid))
+	}
+	bound += fmt.Sprintf(", and of at most %d calls over the core catalog (%d calls: every method, every payload class on both sides); each history on StringBuilder, Sprintfn, SafeFormat via Sprint and via Sprintf, and ManualBuffer", coreLen, len(core))
 	emit := func(law string, cases, nontrivial int, rule, bound string, exhaustive bool) {
 		m, _ := json.Marshal(map[string]interface{}{"property": "C09", "law": law, "cases": cases, "nontrivial": nontrivial,
 			"nontrivial_rule": rule, "bound": bound, "exhaustive": exhaustive})
 		fmt.Printf("BOUNDED: %s\n", m)
 	}
 
-	// C. ManualBuffer step histories
+	// D. ManualBuffer step histories: the extended step alphabet up to 5 steps; thorough: also every sequence of exactly 6 steps over the base alphabet
 	var nSteps, stepClaimed, stepNontrivial int
 	stepsOK := false
 	if complete {
-		nSteps, stepClaimed, stepNontrivial, stepsOK = c09StepHistories(c, stepLen)
+		nSteps, stepClaimed, stepNontrivial, stepsOK = c09StepHistories(c, 5, true, 0)
+		mark("steps19<=5", nSteps)
+		if stepsOK && stepLen > 5 {
+			var n2, c2, t2 int
+			n2, c2, t2, stepsOK = c09StepHistories(c, stepLen, false, stepLen)
+			nSteps, stepClaimed, stepNontrivial = nSteps+n2, stepClaimed+c2, stepNontrivial+t2
+			mark(fmt.Sprintf("steps17=%d", stepLen), n2)
+		}
 	}
-	afterSteps := c.fails
 
-	// D. seeded random long histories over the full catalog
+	// E. seeded random long histories over the full catalog
 	rnd := rand.New(rand.NewSource(seed))
 	c2 := &c09Checker{t: t, limit: 8, seen: map[string]bool{}}
 	c2.fails = c.fails
@@ -1071,7 +1236,7 @@ func TestVerifBoundedC09(t *testing.T) {
 			for j := range seq {
 				for {
 					seq[j] = full[rnd.Intn(len(full))]
-					if seq[j].valid || !onlyValid {
+					if (seq[j].valid && !seq[j].pInvalid) || !onlyValid {
 						break
 					}
 				}
@@ -1079,12 +1244,14 @@ func TestVerifBoundedC09(t *testing.T) {
 			c2.check(seq, k%5 == 0)
 			nRand++
 		}
+		mark("random", nRand)
 	}
 
 	noFail := c.fails == 0 && c2.fails == 0
-	_ = afterSteps
-	_ = nFull
-	_ = nCore
+	stepBound := ""
+	if stepLen > 5 {
+		stepBound = fmt.Sprintf(" and of exactly %d steps over the %d steps without \"\\xe2\\x80\" and 0xb9", stepLen, len(c09Steps(false)))
+	}
 	emit("every result is well-formed and line-safe (all histories, including invalid UTF-8 payloads, invalid runes, non-ASCII single bytes)",
 		enumHist, enumHist-enumClaimed, "histories with at least one invalid UTF-8 payload / invalid rune (only this law applies to them); "+fmt.Sprint(enumOutputs)+" results observed in total", bound, complete && noFail)
 	emit("strip-markers(result) == concatenation in call order of the payloads with markers replaced by '?'",
@@ -1092,13 +1259,13 @@ func TestVerifBoundedC09(t *testing.T) {
 	emit("delete-envelopes(result) == payloads of the safe calls plus the line feeds of the unsafe ones; per content byte, each payload is on the side of its call",
 		enumClaimed, enumNontrivial, c09NontrivialRule, bound+"; valid UTF-8 payloads and valid runes", complete && noFail)
 	emit("StringBuilder, Sprintfn printer, SafeFormat printer (Sprint and Sprintf) and ManualBuffer agree up to merging of adjacent envelopes",
-		enumAgree, enumNontrivial, c09NontrivialRule, bound+"; valid UTF-8 payloads and valid runes", complete && noFail)
+		enumAgree, enumAgreeNontr, c09NontrivialRule+" (histories whose calls all exist on every implementation)", bound+"; valid UTF-8 payloads and valid runes", complete && noFail)
 	emit("bytes sent through the io.Writer / fmt.State side (Write, WriteString, WriteByte, WriteRune, fmt.Fprintf(w,..)) are unsafe payloads",
 		enumIO, enumIO, "histories with only valid payloads and at least one call on the io.Writer / fmt.State side", bound, complete && noFail)
 	emit("ManualBuffer step histories (SetMode and Write/WriteString/WriteByte/WriteRune as separate steps, mode persists, raw writes of well-formed fragments): well-formed, line-safe, content and sides as written",
 		nSteps, stepNontrivial, "step histories with only valid payloads ("+fmt.Sprint(stepClaimed)+") that put payloads on both sides or contain a marker or line feed",
-		fmt.Sprintf("all sequences of at most %d steps over %d steps (3 modes, 8 string/bytes payloads, 3 bytes, 3 runes)", stepLen, len(c09Steps())), stepsOK && noFail)
+		fmt.Sprintf("all sequences of at most 5 steps over %d steps (SetMode x3, 9 string/bytes payloads incl. \"\\xe2\\x80\", WriteByte x4 incl. 0xe2 and 0xb9, WriteRune x3)", len(c09Steps(true)))+stepBound, stepsOK && noFail)
 	emit("all of the above on seeded random long histories (5..40 calls, every tenth 40..200 calls) over the full catalog",
 		nRand, c2.nontrivial, c09NontrivialRule, fmt.Sprintf("sampled: %d histories, VERIF_SEED=%d; not exhaustive", nRand, seed), false)
-	t.Logf("C09 bounded: %d+%d histories (%d results), %d step histories, %d random, %.1fs", nFull, nCore, enumOutputs, nSteps, nRand, time.Since(start).Seconds())
+	t.Logf("C09 bounded: %s; total %.1fs", strings.Join(phases, "; "), time.Since(start).Seconds())
 }
